@@ -3,6 +3,26 @@
 import json, subprocess, sys
 
 CHECKS = {
+ "C02": dict(engine="E1-simworld", category="model_checking", design="§3 C02",
+   text="One real searcher among scripted ideal responders: L1 every subset (size 1..5, thorough 1..6) of a 3-bit (4-bit) id-prefix universe x searcher id x info-hash class at the default schedule; L2 every topology x 3 (searcher, info-hash) pairs x every single (thorough double) latency deviation over {1,20,240,480} ms on the search's datagrams; L3 every topology of size <= 3 x contact choice x read-only x port/announce x peer sets x family; structured networks of 30/200(/1000) nodes (uniform, clustered at target, clustered at searcher). Oracle: announce_peer exactly to the 8 closest by XOR (all if fewer) with that node's token, hash, own id, port/implied_port; stream == multiset of values of all delivered answers.",
+   note="Responders answer within 480 ms one-way (premise: within one second). Distance ties (equal ids) make the 8-closest set ambiguous and either choice is accepted.",
+   technique="layered exhaustive enumeration of topologies/configurations + deviation-bounded schedule exploration of the real node"),
+ "C03": dict(engine="E1-simworld", category="fault_enumeration", design="§3 C03",
+   text="One real searcher, 3..5 responders, 1-2 concurrent searches; for every datagram to/from the searcher a fate from {20 ms, 990 ms, 1.6 s, 3.1 s, drop, duplicate} and an adversary injection from a 27-entry menu (9 transaction-id classes x 3 forged bodies, computed from the wire log at that instant); all choice vectors with <= 1 (thorough 2) deviations. Oracle from the wire alone: yielded addresses only from responses whose tid belongs to a still outstanding get_peers of that search; announce_peer only to (id, address) that gave a token, with its latest token, <= 8, none without announce.",
+   note="Responses delivered 1490..1510 ms after their query are in a free band (1 ms grid vs. timer order).",
+   technique="fault enumeration: deviation-bounded exploration of network fates and adversary injections against the real node"),
+ "C04": dict(engine="E1-simworld", category="model_checking", design="§3 C04",
+   text="One real node with 0..4 (6) known peers that answer / stay silent / answer errors to get_peers (every behaviour vector for n<=3), chains of 1..6 ever closer nodes, send_to failing or pending once on the k-th send for every k, every choice vector with <= 2 deviations over {1,740,760,990,1600 ms, drop}; timing oracle in virtual ms for termination bound, 3 s silent case, no close with a young unanswered query, no timely answer missed, immediate close with nobody to ask.",
+   note="Tolerance +-10 ms for the 1 ms delivery grid. Searches are issued after the first bootstrap attempt (C16 governs earlier ones).",
+   technique="stateless deviation-bounded exploration of the real node with a virtual-time oracle"),
+ "C11": dict(engine="E1-simworld", category="model_checking", design="§3 C11",
+   text="One real node for 1 h (thorough 4 h) of virtual time with 1..3 (5, 6..8) contacts: every partition into always-answering / silent from t in {0,1,14,16,60 min}, builder contacts or hearsay-only, single-contact and well-connected regimes, with/without periodic searches, others stop naming a silent contact after 0/5/10 min, latencies {1,20,200}; load_contacts sampled every 3 s. Oracle: responsive contacts never lost and never questionable > 30 s; silent contacts gone after max(last answer + 20 min, last mention + 5 min).",
+   note="One deterministic execution per configuration (loss-free premise). 'Always answers' = answers within the asker's shortest timeout.",
+   technique="exhaustive sweep of small configurations of the real node over hours of virtual time"),
+ "C12": dict(engine="E1-simworld", category="fault_enumeration", design="§3 C12",
+   text="Differential fault enumeration: for every wire event of a base run (bootstrap, idle, search) and each of 16 injections (4 unsolicited query kinds from fresh (id,address); responses with 2/7/9/20-byte ids or never-used action prefixes, from a fresh address and from a known contact) the run is repeated with that injection (thorough: also pairs) and every contacts/state sample (500 ms), three 161-probe table dumps and the search's items are compared with the run without it; hostile node lists in accepted answers (own id, router, duplicates, 50 names): own address/router never listed, named-only nodes never good.",
+   note="Determinism of the engine makes the two runs comparable sample by sample (checked: replay divergence is a machinery error).",
+   technique="fault enumeration with a differential oracle on the real node"),
  "C01": dict(engine="E1-simworld", category="model_checking", design="§3 C01",
    text="Stateless exploration of full meshes of 2..4 (thorough ..9) real MainlineDht nodes on the in-memory network under virtual time: every configuration of the stated product (family, announce port, id placement, every ordered announcer/searcher pair, two announcers) at the default schedule incl. histories of 10 min .. 30 h and re-announce; every per-link latency matrix over {1,20,480} ms for n<=3 (9+729 x pairs); every choice vector with <= 2 (n=2) / 1 deviations over per-datagram latencies {1,480,990} ms from the announcer's first get_peers on. Oracle: the searcher's stream contains the announcer's IP with the configured/source port up to 24 h - 10 s and none of it after 24 h + 5 s.",
    note="Single-threaded runtime with fixed select! seed; latency alphabet on a 1 ms grid; no loss. Executions in which a get_peers of the announcing/searching lookup is answered after > 1.5 s are the recorded finding C01 lookup-rtt>1.5s.",
